@@ -440,7 +440,8 @@ EXTRAS3 = {
     fl("flow_publish_callbacks", "publishPrelude", "`OnPublishStart` comes first (its context is the one hooks, persistence and handlers get)") + "\n" +
     fl("flow_publish_complete_last", "publishEpilogue", "`OnPublishComplete` is the last thing `PublishContext` does, on every path") + "\n" +
     fl("flow_handler_callbacks", "handlerBracket", "`OnHandlerStart` once before the call, `OnHandlerComplete` once inside the recovering `defer`, whether or not something was recovered") + "\n" +
-    fl("flow_persist_callbacks", "persistShape", "`OnPersistStart` before and `OnPersistComplete` after the one append, once each")),
+    fl("flow_persist_callbacks", "persistShape", "`OnPersistStart` before and `OnPersistComplete` after the one append, once each") + "\n" +
+    fl("flow_otel_adapter", "otelShape", "the OpenTelemetry adapter: every start callback starts one span and increments its counter once, unconditionally, with no early return; every complete callback takes the span from the context and ends it exactly once as its last statement on every path; the error counters are incremented exactly under `err != nil`")),
 }
 
 EXTRAS4 = {
